@@ -504,7 +504,9 @@ def run(ctx):
             if core.match_known("C10", sig) is not None:
                 ctx.violation(sig, w, c)
             else:
-                ctx.notes.append("finding candidate (not listed in known_findings.json, not counted): %s -- %s; input: %s" % (sig, w, " / ".join(c["input_lines"][:6])))
+                ctx.notes.append("note (%s, not counted): %s -- %s; input: %s" % (
+                    "unspecified by the API text, DESIGN.md C10" if sig == RESET0_SIG else "not listed in known_findings.json",
+                    sig, w, " / ".join(x[:80] for x in c["input_lines"][:6])))
         for (w, c) in unknown[:3]:
             ctx.violation("unlisted:" + w.split()[0], w, c)
     else:
